@@ -729,12 +729,12 @@ func mergeCandidates(raw json.RawMessage) []json.RawMessage {
 		for bi := range f.Blocks {
 			c := clone()
 			c.Files[fi].Blocks = append(c.Files[fi].Blocks[:bi], c.Files[fi].Blocks[bi+1:]...)
-				emit(c)
+			emit(c)
 			for ri := range f.Blocks[bi].Type.Relations {
 				c := clone()
 				t := c.Files[fi].Blocks[bi].Type
 				t.Relations = append(t.Relations[:ri], t.Relations[ri+1:]...)
-						emit(c)
+				emit(c)
 			}
 			for ri, rel := range f.Blocks[bi].Type.Relations {
 				if rel.Expr != nil && rel.Expr.isOp() {
@@ -749,7 +749,7 @@ func mergeCandidates(raw json.RawMessage) []json.RawMessage {
 		for ci := range f.Conds {
 			c := clone()
 			c.Files[fi].Conds = append(c.Files[fi].Conds[:ci], c.Files[fi].Conds[ci+1:]...)
-				emit(c)
+			emit(c)
 		}
 	}
 	return out
